@@ -1,6 +1,6 @@
 """C03 - edits follow Python container semantics and change nothing else in the tree."""
 
-from checks import common, editcheck
+from checks import common, editcheck, views_part
 
 PROPS = ('C03',)
 
@@ -17,6 +17,8 @@ def run(ctx):
                         'f-string internals excluded; raw mode excluded (C10)']
     ctx.model('ContainersMC', 'ContainersMC' if ctx.quick else 'ContainersMC_thorough',
               required=('DoPutSlice', 'DoPutOne', 'DoDelOne', 'DoAppend', 'DoPrepend'))
+    # sub-views: FSTView state machine (Views.tla) model-checked, TLC-simulated behaviours replayed on real views
+    views_part.run_views(ctx)
     # (G) TLC-generated request table x container catalogue, replayed into pfst
     editcheck.run_sweep(ctx, per_template=45 if ctx.quick else 0, n_arg=400 if ctx.quick else 0, props=PROPS)
     if not ctx.quick:
@@ -30,4 +32,10 @@ def run(ctx):
 
 
 def replay(ctx, path):
+    import json
+    with open(path) as f:
+        rp = json.load(f)
+    if rp.get('part') == 'views':
+        views_part.replay_views(ctx, rp)
+        return ctx.finish()
     return editcheck.replay(ctx, path, PROPS)
